@@ -171,9 +171,17 @@ class Tdf:
         return self
 
     def __enter__(self) -> "Tdf":
-        self._inside_context = True
         self.handler: IO[bytes] = self.file_path.open(self._mode)
+        try:
+            self._read_header_and_entries()
+        except BaseException:
+            # a failed open leaves neither an open handle nor an "inside context" state
+            self.handler.close()
+            raise
+        self._inside_context = True
+        return self
 
+    def _read_header_and_entries(self) -> None:
         self.signature = self.handler.read(len(self.SIGNATURE))
 
         if self.signature != self.SIGNATURE:
@@ -193,8 +201,6 @@ class Tdf:
         i32.skip(self.handler, 5)
 
         self.entries = [TdfEntry._build(self.handler) for _ in range(self.nEntries)]
-
-        return self
 
     def __exit__(self, exc_type, exc_val, exc_tb) -> None:
         self._inside_context = False
